@@ -55,3 +55,82 @@ def import_rules(prog: Program, ctx: Ctx, rule: str) -> None:
         env.set("alias_name", it2.eval(defs["alias_name"], env))
         got = (env.vars["alias_name"], env.vars["alias_path"])
         ctx.ob(rule, f"import|{mod_name} as {asname}", got == want, f"`import {mod_name}{' as ' + asname if asname else ''}` binds {got[0]} -> {got[1]}, expected {want[0]} -> {want[1]}", where(vi))
+
+
+def importfrom_table(prog: Program, ctx: Ctx, rule: str) -> None:
+    """`from ... import ...` decision table: Visitor.visit_importfrom evaluated on abstract visitors, against CPython's binding rule.
+
+    Python binds `asname or name` in the *current scope* to the object `<resolved package>.<module>.<name>`, where the package is resolved from
+    the *module* the statement is written in (importlib.util.resolve_name), whatever class or function the statement sits in.  Griffe must
+    create exactly that alias, except when the alias would point at its own path (then nothing is created)."""
+    import importlib.util
+    import itertools
+    from pathlib import PurePosixPath
+
+    from sa.absint import Native, Raised
+
+    ctx.rule(rule, "visit_importfrom binds `asname or name` in the current scope to the path CPython resolves from the enclosing *module* "
+                   "(any level, with or without module, in modules, packages and class bodies); only an alias that would point at itself is skipped")
+    vif = prog.function("_griffe.agents.visitor.Visitor.visit_importfrom")
+    it = Interp(prog)
+    it.class_stubs["_griffe.models.Alias"] = lambda _i, name, target, **_k: Obj(None, {"name": name, "target_path": target}, label=f"alias {name}")
+    M = "_griffe.models"
+    layouts = {  # dotted module path -> is it an __init__ module
+        "pkg": True, "pkg.mod": False, "pkg.sub": True, "pkg.sub.mod": False, "pkg.sub.deep": True, "pkg.sub.deep.leaf": False,
+    }
+    mods: dict[str, Obj] = {}
+    for path, init in layouts.items():
+        parts = path.split(".")
+        fp = PurePosixPath("/s/" + "/".join(parts) + ("/__init__.py" if init else ".py"))
+        mods[path] = Obj(prog.cls(f"{M}.Module"), {"name": parts[-1], "parent": mods.get(".".join(parts[:-1])), "path": path, "_filepath": fp}, label=path)
+        mods[path].attrs["module"] = mods[path]
+    n_rows = 0
+    for (mpath, init), in_class, level, module, asname, star in itertools.product(layouts.items(), (False, True), (0, 1, 2, 3), (None, "x"), (None, "t"), (False, True)):
+        if level == 0 and module is None:
+            continue
+        if star and (asname or module is None):
+            continue
+        package = mpath if init else mpath.rpartition(".")[0]
+        if level:
+            try:
+                base = importlib.util.resolve_name("." * level + (module or ""), package)
+            except ImportError:
+                continue  # beyond the top-level package: CPython rejects the statement
+        else:
+            base = module
+        name = "*" if star else "thing"
+        src = f"from {'.' * level}{module or ''} import {name}" + (f" as {asname}" if asname else "")
+        node = ast.parse(src).body[0]
+        recorded: list[tuple[str, str]] = []
+        imports: dict = {}
+        module_obj = mods[mpath]
+        if in_class:
+            current = Obj(prog.cls(f"{M}.Class"), {"name": "K", "parent": module_obj, "path": f"{mpath}.K", "module": module_obj}, label=f"{mpath}.K")
+        else:
+            current = module_obj
+        saved = dict(current.attrs)
+        current.attrs["imports"] = imports
+        current.attrs["set_member"] = Native(lambda n, a, recorded=recorded: recorded.append((n, it.getattr(a, "target_path"))))
+        visitor = Obj(prog.cls("_griffe.agents.visitor.Visitor"), {"current": current, "type_guarded": False,
+                                                                   "extensions": Obj(None, {"call": Native(lambda *a, **k: None)})}, label="visitor")
+        try:
+            it.steps = 0
+            it.call(vif, visitor, node)
+            got: object = recorded
+        except Raised as r:
+            got = f"raises {r.exc}"
+        finally:
+            current.attrs.clear()
+            current.attrs.update(saved)
+        if star:
+            want = [(f"{base.replace('.', '/')}/*", base)]
+        else:
+            local = asname or name
+            target = f"{base}.{name}"
+            want = [] if target == f"{current.attrs['path']}.{local}" else [(local, target)]
+        n_rows += 1
+        ok = got == want and (star or not want or imports.get(want[0][0]) == want[0][1])
+        scope = f"class in {mpath}" if in_class else mpath
+        ctx.ob(rule, f"importfrom|{scope}{' (__init__)' if init else ''}|{src}", ok,
+               f"`{src}` in {scope}{' (__init__)' if init else ''}: griffe binds {got}" + ("" if ok else f" (import map {imports}); Python binds {want}"), where(vif))
+    ctx.expect_min(rule, n_rows, 150)
